@@ -83,7 +83,7 @@ func (m *Model) AskAll(lines []string) ([]string, error) {
 		if err != nil {
 			return res, fmt.Errorf("model died after %d answers: %v", len(res), err)
 		}
-		res = append(res, strings.TrimRight(s, "\n"))
+		res = append(res, strings.TrimRight(s, " \n"))
 	}
 	m.N += len(lines)
 	return res, <-errc
